@@ -404,12 +404,15 @@ func (c *FailoverController) evaluateState() {
 		// Verify partner is still healthy before failback
 		if !c.healthMonitor.IsPartnerHealthy() {
 			c.mu.Lock()
-			if c.failbackTimer != nil {
-				c.failbackTimer.Stop()
+			// the state was read without holding the lock across the health check
+			if c.state == FailoverStateFailbackPending {
+				if c.failbackTimer != nil {
+					c.failbackTimer.Stop()
+				}
+				c.timerGen++
+				c.state = FailoverStateComplete
+				c.logger.Warn("Partner unhealthy during failback delay, canceling failback")
 			}
-			c.timerGen++
-			c.state = FailoverStateComplete
-			c.logger.Warn("Partner unhealthy during failback delay, canceling failback")
 			c.mu.Unlock()
 		}
 	}
@@ -585,6 +588,21 @@ func (c *FailoverController) executeFailback(reason string, timerGen uint64) {
 		)
 		time.Sleep(c.config.GracePeriod)
 	}
+
+	// The grace period has passed without the lock: the failback may have been cancelled
+	// meanwhile, and the partner must still be healthy before we hand the traffic back.
+	c.mu.Lock()
+	if c.state != FailoverStateFailbackPending || timerGen != c.timerGen {
+		c.mu.Unlock()
+		return
+	}
+	if !c.healthMonitor.IsPartnerHealthy() {
+		c.logger.Warn("Partner became unhealthy during grace period, canceling failback")
+		c.state = FailoverStateComplete
+		c.mu.Unlock()
+		return
+	}
+	c.mu.Unlock()
 
 	// Call role change callback
 	if onRoleChange != nil {
